@@ -240,9 +240,11 @@ INSTR_POOL = [
 ]
 
 
-def gen_program(rng, nstmt):
+def gen_program(rng, nstmt, bss=False):
     """A well-formed random program: labels (forward and backward references), sections, .ORG,
-    data directives, instructions with symbolic operands."""
+    data directives, instructions with symbolic operands.  With bss=True the bss section is used as a
+    bss section: it only receives labels and `defs` reservations (code or initialised data there is not
+    a well-formed program: nothing is emitted for it)."""
     nlab = rng.randrange(1, 5)
     labels = [f"L{i}" for i in range(nlab)]
     lines = []
@@ -251,11 +253,25 @@ def gen_program(rng, nstmt):
     section = "code"
     org_used = 0
     orgs_done = []
+    # with a bss section: half of the programs have the canonical shape code / data / bss (in that order)
+    canonical = {}
+    if bss and rng.random() < 0.5 and nstmt >= 5:
+        a = rng.randrange(1, nstmt - 3)
+        b = rng.randrange(a + 2, nstmt - 1)
+        canonical = {a: "data", b: "bss"}
     for i in range(nstmt):
         r = rng.random()
         lab = ""
         if pending and (rng.random() < 0.4 or nstmt - i <= len(pending)):
             lab = pending.pop() + ": "
+        if i in canonical:
+            section = canonical[i]
+            lines.append(f"SECTION {section}")
+            if lab:
+                lines.append(lab.strip())
+            continue
+        if canonical and 0.10 <= r < 0.16:
+            r = 0.5        # no further section switches in a canonical program
         if (r < 0.10 and org_used < 2) or (i == 0 and r < 0.25):
             org_used += 1
             if i > 0 and not orgs_done:
@@ -277,6 +293,9 @@ def gen_program(rng, nstmt):
             if lab:
                 lines.append(lab.strip())
             continue
+        if bss and section == "bss":
+            lines.append(f"{lab}defs {rng.randrange(0, 9)}")
+            continue
         if r < 0.36:
             kind = rng.choice(["defb", "defw", "defl", "defs", "defm"])
             if kind == "defb":
@@ -296,6 +315,8 @@ def gen_program(rng, nstmt):
         t = rng.choice(INSTR_POOL)
         t = t.format(sym16=rng.choice(labels), sym20=rng.choice(labels), near=rng.choice(labels), a20=rng.randrange(1 << 20))
         lines.append(f"{lab}{t}")
+    if bss and section == "bss" and pending:
+        lines.append("SECTION code")
     for lab in pending:
         lines.append(f"{lab}: NOP")
     return "\n".join(lines) + "\n"
@@ -409,8 +430,8 @@ def unit_layout(unit):
     shared = ASM.Assembler()
     prev_src = None
     for k in range(n):
-        src = gen_program(rng, rng.randrange(3, unit.get("max_statements", 12) + 1))
-        if unit.get("avoid_bss", True):
+        src = gen_program(rng, rng.randrange(3, unit.get("max_statements", 12) + 1), bss=unit.get("bss", False))
+        if not unit.get("bss", False):
             src = src.replace("SECTION bss", "SECTION data")
 
         def image_of(bf):
